@@ -8,6 +8,15 @@ import glob
 for f in sorted(glob.glob(os.path.join(here, "lib", "manifest.d", "C*.json"))):
     tab["checks"][os.path.basename(f)[:-5]] = json.load(open(f))
 props = [json.loads(l)["id"] for l in open(os.path.join(here, "properties.jsonl"))]
+def design_ref(pid):
+    refs = [f"DESIGN.md §7 ({pid})", f"docs/{pid}.md"]
+    if pid in ("C01", "C02", "C03", "C04", "C06"):
+        refs.append("docs/TXN.md (transactional harness)")
+    if pid in ("C02", "C03", "C04"):
+        refs.append("docs/PERC_EVENTS.md (trace vocabulary, acceptor rules)")
+    return ", ".join(refs)
+
+
 checks, na = [], []
 for pid in props:
     e = tab["checks"].get(pid)
@@ -21,7 +30,8 @@ for pid in props:
         "evidence_file": f"/verif/evidence/{pid}.json",
         "replay_cmd_template": f"./check {pid} --replay {{path}}",
         "engine": e.get("engine", "coq+correspondence"),
-        "level_claimed": {"category": e.get("category", "proof"), "text": e["text"], "design_ref": e.get("design_ref", "")},
+        # the reference is generated, not taken from the fragment: DESIGN.md §7 has the per-property paragraph, docs/<ID>.md the detail
+        "level_claimed": {"category": e.get("category", "proof"), "text": e["text"], "design_ref": design_ref(pid)},
         "level_note": e["note"],
         "technique": e.get("technique", "machine-checked proof in Coq 8.16 (theorems over a Gallina model) + correspondence check model vs implementation"),
     })
@@ -30,7 +40,7 @@ m = {
     "setup_cmd": "./setup.sh",
     "hooks": {
         "guard": "verif",
-        "enable": "go build -tags verif -overlay build/overlay-*.json (virtual files from /verif/harness/go/overlay mapped into /repo at build time; nothing is committed to /repo)",
+        "enable": "go build -tags verif -overlay build/overlay-*.json (virtual files from /verif/harness/go/overlay and the per-area roots /verif/harness/go/ov_* mapped into /repo at build time; every such file carries //go:build verif; nothing is committed to /repo)",
         "baseline_off_cmd": "for m in . integration_tests; do (cd /repo/$m && GOFLAGS=-mod=mod GOPROXY=off go test -json -vet=off -count=1 -timeout 25m ./...); done",
         "source_commits": tab.get("hook_commits", []),
         "add_only": True,
